@@ -1,6 +1,7 @@
 import Mimium.Model.Core
 import Mimium.Props.C05
 import Mimium.Proofs.CoreSoundMachine
+import Mimium.Proofs.CoreCheckComplete
 /-!
 # C03 — programs accepted by the type checker run without crashes or memory errors
 
@@ -28,9 +29,32 @@ first-order types and their initialisers call no named function (`Machine.step` 
 initialised yet); a function with a `selfShape` returns the type of that shape; lambda bodies cannot mention `self`
 (closures run against a scratch state).
 
+**An algorithmic checker, proved sound and (for annotated programs) complete** — `Model/CoreCheck.lean`, executable:
+`inferE Φ B Γ ρ e : Option Ty` synthesises the type of an expression (the parameter types of a `lam`, the one rule of
+`HasType` that is not syntax-directed, are read from a side table `B` keyed by parameter name, absent = `num`);
+`checkProg A P : Option (Sig × List Ty × Ty)` decides every clause of `WellTyped` (globals, every declared function against
+the signature the annotations `A` give it, `selfShape`, `Agree` of the call sites, numeric `dsp` parameters) plus a
+first-order output type.
+* `C03_check_sound` — `checkProg A P = some (Φ, Ψg, τ) → WellTyped Φ Ψg τ P`, for EVERY annotation table `A` (so also for
+  the ones guessed by the untrusted unification pre-pass `Model/CoreInfer.lean`, whose verdict the driver prints);
+* `C03_check_run_output_width`, `C03_check_never_type_error` — hence a program the checker accepts never goes wrong in the
+  reference semantics: init + any number of samples is fuel exhaustion or `k` frames of exactly `wordSize τ` words;
+* `C03_check_expr_sound`, `C03_check_expr_iff`, `C03_check_expr_unique`, `C03_check_lambda_free_complete` — expression
+  level: `inferE … = some τ` iff there is an ANNOTATED derivation `HasTypeA` (= `HasType` whose `lam` rule uses the table);
+  every annotated derivation is a derivation; types are unique; for lambda-free expressions every `HasType` derivation is
+  found, whatever the table;
+* `C03_check_complete`, `C03_check_iff` — program level: `checkProg A P = some (Φ, Ψg, τ)` iff `Φ` is the annotated signature
+  list and `WellTypedA A Ψg τ P` (`WellTyped` with annotated derivations, every declaration checked, output first-order);
+* `C03_check_complete_lambda_free_program` — for programs without `lam` (distinct function names) the checker is complete
+  w.r.t. the DECLARATIVE `WellTyped` whose signatures are the annotated ones;
+* `C03_check_agree_decided`, `C03_check_output_first_order` — the side conditions are decided exactly.
+NOT proved here: completeness w.r.t. un-annotated `WellTyped` (a derivation may type two lambdas whose parameters share a
+name differently, or choose signatures the annotations do not name; the inference pre-pass is not verified — it need not be).
+
 NOT proved: soundness of the REAL type checker / that the real checker accepts only `WellTyped` programs. That is
-observed: everything the real checker accepts among generated well-typed programs and their near-miss mutants must run
-safely on both backends; the pinned tree has listed findings there (K1–K10).
+observed, now in both directions: on every generated well-typed program and every near-miss mutant the verdict of the Lean
+checker (accept with output width / reject) is compared with the real compiler's verdict (`tools/props/c03.py`); what the
+real checker accepts must run safely on both backends; the pinned tree has listed findings there (K1–K10).
 -/
 namespace Mimium.Core
 
@@ -255,5 +279,114 @@ example : ¬ Agree (calls exBadSites.dsp.body) := by
   exact absurd this (by decide)
 example (sr : UInt64) : ∃ m, Machine.init 10 exBadSites sr = .ok m ∧
     Machine.step 10 exBadSites sr m [] = .error (.type "tuple pattern") := ⟨_, rfl, rfl⟩
+
+/-! ## The algorithmic checker (`Model/CoreCheck.lean`) -/
+
+/-- **Soundness of the checker.** Whatever the annotation table, a program the checker accepts is well typed with the
+signatures, global types and output type the checker returns. -/
+theorem C03_check_sound {A : Annot} {P : Prog} {Φ : Sig} {Ψg : List Ty} {τ : Ty}
+    (h : checkProg A P = some (Φ, Ψg, τ)) : WellTyped Φ Ψg τ P := (checkProg_sound h).1
+
+/-- … and its output type is first-order, its signatures are the annotated ones -/
+theorem C03_check_output_first_order {A : Annot} {P : Prog} {Φ : Sig} {Ψg : List Ty} {τ : Ty}
+    (h : checkProg A P = some (Φ, Ψg, τ)) : τ.fo = true ∧ Φ = P.fns.map (sigOf A) := (checkProg_sound h).2
+
+/-- **Accepted programs run safely.** Init then any number `k` of samples of an accepted program: fuel exhaustion, or `k`
+frames of exactly `wordSize τ` words each (`Good` is `False` on every error other than fuel). -/
+theorem C03_check_run_output_width {A : Annot} {P : Prog} {Φ : Sig} {Ψg : List Ty} {τ : Ty}
+    (h : checkProg A P = some (Φ, Ψg, τ)) (fuel : Nat) (sr : UInt64) (inputs : Nat → List UInt64) (k : Nat) :
+    Good (fun r : List (List UInt64) × Machine =>
+        r.1.length = k ∧ (∀ o ∈ r.1, o.length = wordSize τ) ∧ MachineOK Φ Ψg P r.2)
+      (andThen (Machine.init fuel P sr) (runSamples fuel P sr inputs k)) :=
+  C03_run_output_width (C03_check_sound h) fuel sr inputs k
+
+/-- spelled out: no run of an accepted program ends in a type error, an unbound variable or an unknown function -/
+theorem C03_check_never_type_error {A : Annot} {P : Prog} {Φ : Sig} {Ψg : List Ty} {τ : Ty}
+    (h : checkProg A P = some (Φ, Ψg, τ)) (fuel : Nat) (sr : UInt64) (inputs : Nat → List UInt64) (k : Nat) :
+    (∀ w, andThen (Machine.init fuel P sr) (runSamples fuel P sr inputs k) ≠ .error (.type w)) ∧
+    (∀ x, andThen (Machine.init fuel P sr) (runSamples fuel P sr inputs k) ≠ .error (.unbound x)) ∧
+    (∀ f, andThen (Machine.init fuel P sr) (runSamples fuel P sr inputs k) ≠ .error (.nofn f)) := by
+  have hr := C03_check_run_output_width h fuel sr inputs k
+  refine ⟨?_, ?_, ?_⟩
+  · intro w hw; rw [hw] at hr; exact hr
+  · intro x hx; rw [hx] at hr; exact hr
+  · intro f hf; rw [hf] at hr; exact hr
+
+/-- **Expressions: soundness.** What `inferE` synthesises is a type of the declarative system. -/
+theorem C03_check_expr_sound (Φ : Sig) (B : Binders) (e : Expr) (Γ : Ctx) (ρ : Option Ty) (τ : Ty)
+    (h : inferE Φ B Γ ρ e = some τ) : HasType Φ Γ ρ e τ := inferE_sound Φ B e Γ ρ τ h
+
+/-- **Expressions: the checker decides annotated typability.** `HasTypeA` is `HasType` with the parameter types of every
+`lam` read from the table `B` (`C03_check_annotated_is_typed`). -/
+theorem C03_check_expr_iff (Φ : Sig) (B : Binders) (e : Expr) (Γ : Ctx) (ρ : Option Ty) (τ : Ty) :
+    inferE Φ B Γ ρ e = some τ ↔ HasTypeA Φ B Γ ρ e τ := inferE_iff
+
+theorem C03_check_annotated_is_typed (Φ : Sig) (B : Binders) (e : Expr) (Γ : Ctx) (ρ : Option Ty) (τ : Ty)
+    (h : HasTypeA Φ B Γ ρ e τ) : HasType Φ Γ ρ e τ := h.toHasType
+
+/-- under annotations an expression has at most one type -/
+theorem C03_check_expr_unique (Φ : Sig) (B : Binders) (e : Expr) (Γ : Ctx) (ρ : Option Ty) (τ τ' : Ty)
+    (h : HasTypeA Φ B Γ ρ e τ) (h' : HasTypeA Φ B Γ ρ e τ') : τ = τ' := h.unique h'
+
+/-- **Completeness without annotations for lambda-free expressions**: every declarative derivation is found. -/
+theorem C03_check_lambda_free_complete (Φ : Sig) (B : Binders) (e : Expr) (Γ : Ctx) (ρ : Option Ty) (τ : Ty)
+    (h : HasType Φ Γ ρ e τ) (hl : noLam e = true) : inferE Φ B Γ ρ e = some τ := inferE_complete (h.toA B hl)
+
+/-- **Programs: completeness for the annotated fragment.** -/
+theorem C03_check_complete {A : Annot} {P : Prog} {Ψg : List Ty} {τ : Ty} (h : WellTypedA A Ψg τ P) :
+    checkProg A P = some (P.fns.map (sigOf A), Ψg, τ) := checkProg_iff.2 ⟨rfl, h⟩
+
+/-- **Programs: the checker decides `WellTypedA`** (`WellTyped` with annotated derivations, the annotated signatures for
+every declaration, a first-order output type); `WellTypedA A Ψg τ P → WellTyped (sigs) Ψg τ P` is `C03_check_sound` ∘ this. -/
+theorem C03_check_iff {A : Annot} {P : Prog} {Φ : Sig} {Ψg : List Ty} {τ : Ty} :
+    checkProg A P = some (Φ, Ψg, τ) ↔ Φ = P.fns.map (sigOf A) ∧ WellTypedA A Ψg τ P := checkProg_iff
+
+/-- **Programs: completeness w.r.t. the declarative `WellTyped`, lambda-free programs.** If a program without `lam`, with
+pairwise distinct function names, is `WellTyped` with the signatures the annotations name and a first-order output type,
+the checker accepts it and returns exactly that typing. (With lambdas the derivation must use the annotated parameter
+types: `C03_check_complete`.) -/
+theorem C03_check_complete_lambda_free_program {A : Annot} {P : Prog} {Ψg : List Ty} {τ : Ty}
+    (h : WellTyped (P.fns.map (sigOf A)) Ψg τ P) (hl : noLamProg P = true)
+    (hn : (P.fns.map (·.name)).Nodup) (hfo : τ.fo = true) :
+    checkProg A P = some (P.fns.map (sigOf A), Ψg, τ) := checkProg_complete_noLam h hl hn hfo
+
+/-- the side condition on site identifiers is decided exactly -/
+theorem C03_check_agree_decided (C : List (Nat × String)) : agreeB C = true ↔ Agree C := agreeB_iff C
+
+/-! ### non-vacuity: the checker accepts the example program (by evaluation) and rejects the three bad ones -/
+def exAnnot : Annot := { binders := [], rets := [("acc", .tup [.num, .num])] }
+
+example : checkProg exAnnot exProg = some (exSig, [.num], .tup [.num, .num]) := by decide
+example : WellTyped exSig [.num] (.tup [.num, .num]) exProg := C03_check_sound (A := exAnnot) (by decide)
+example : WellTypedA exAnnot [.num] (.tup [.num, .num]) exProg := (C03_check_iff (Φ := exSig).1 (by decide)).2
+example : sitesUniqueProg exProg = true := by decide
+/-- the hypotheses of `C03_check_complete_lambda_free_program` are satisfiable: `exProg` without its closure -/
+def exNoLam : Prog :=
+  { globals := exProg.globals, fns := exProg.fns,
+    dsp := { name := "dsp", params := ["in"], selfShape := none,
+             body := .letE "t1" (.call "acc" [.var "in"] 1) (.tup [.proj (.var "t1") 0, .var "g0"]) } }
+example : WellTyped (exNoLam.fns.map (sigOf exAnnot)) [.num] (.tup [.num, .num]) exNoLam ∧ noLamProg exNoLam = true ∧
+    (exNoLam.fns.map (·.name)).Nodup ∧ (Ty.tup [.num, .num]).fo = true :=
+  ⟨C03_check_sound (A := exAnnot) (by decide), by decide, by decide, by decide⟩
+/-- a lambda with a function-typed parameter needs its annotation: with it the checker accepts, without it it rejects -/
+def exHO : Prog :=
+  { globals := [], fns := [],
+    dsp := { name := "dsp", params := [], selfShape := none,
+             body := .letE "twice" (.lam ["f", "x"] (.app (.var "f") [.app (.var "f") [.var "x"]]))
+               (.app (.var "twice") [.lam ["y"] (.bin .mul (.var "y") (.var "y")), .lit 3]) } }
+example : checkProg ⟨[("f", .fn [.num] .num)], []⟩ exHO = some ([], [], .num) := by decide
+example : checkProg ⟨[], []⟩ exHO = none := by decide
+/-- … so the un-annotated completeness statement `WellTyped Φ Ψg τ P → checkProg A P ≠ none` is FALSE for a fixed table:
+completeness is necessarily relative to the annotations (`C03_check_complete`) or to lambda-free programs -/
+example : WellTyped [] [] .num exHO ∧ checkProg ⟨[], []⟩ exHO = none :=
+  ⟨C03_check_sound (A := ⟨[("f", .fn [.num] .num)], []⟩) (by decide), by decide⟩
+example : inferE [] [] [("t", .tup [.num, .num])] none (.proj (.var "t") 1) = some .num ∧
+    noLam (.proj (.var "t") 1) = true := by decide
+example : HasTypeA [] [] [] none (.lam ["q"] (.var "q")) (.fn [.num] .num) := (C03_check_expr_iff ..).1 (by decide)
+-- the three programs that satisfy all clauses of `WellTyped` but one are rejected, whatever the annotations of their functions
+example : checkProg ⟨[], []⟩ exBadGlobalClosure = none := by decide
+example : checkProg ⟨[], []⟩ exBadGlobalCall = none := by decide
+example : checkProg ⟨[], [("g", .tup [.num, .num])]⟩ exBadSites = none := by decide
+example : agreeB (calls exBadSites.dsp.body) = false := by decide
 
 end Mimium.Core
